@@ -21,6 +21,7 @@ RULE = (
     "default / mixed; positions statement / assignment / nested expression / two on one line) x remove x only_current; arguments and "
     "defining expressions atomic or parenthesised; non-trivial = accepted inline with >= 2 sites of different argument shapes or a site "
     "in another module; distinct by case hash"
+    "; call sites also inside functions (with / without a clashing local), method bodies reading self.m, bodies needing a module import next to a module with a longer name, a reader defined above the inlined variable"
 )
 ASSUMPTIONS = [
     "only_current and remove are combined only when the current occurrence is the last one (caller contract stated in inline.py)",
